@@ -6,7 +6,7 @@ import Scalibr.Model.Worklist
 namespace Scalibr.C16
 open Scalibr Scalibr.Worklist
 
-/-- patches that `Compare` equal are identical — NOT a theorem of the code (`Compare` ignores the ids in
+/-- patches that `Compare` equal are identical — since fix 09778cd0 a theorem (`C16_cmpeq_holds`); before it NOT a theorem of the code (`Compare` ignores the ids in
 `Fixed`/`Introduced`, `VersionFrom`, `Transitive`, `Type`): an explicit hypothesis, evaluated by the harness on
 every generated universe -/
 def CmpEqImpliesEq (vc : Str → Str → Int) (c : List Patch) : Prop :=
@@ -24,7 +24,7 @@ def bytes : String → Str
   | _ => []
 def demoVc : Str → Str → Int := verCmp parseMajor (fun a b => cmpInt a b)
 def one (name vto : String) (fixed : List String) : Patch :=
-  ⟨[⟨bytes name, bytes "1.0.0", bytes vto, false⟩], fixed.map bytes, []⟩
+  ⟨[⟨bytes name, bytes "1.0.0", bytes vto, false, []⟩], fixed.map bytes, []⟩
 
 def demoFn : Task → Option Patch := fun t =>
   if t = [bytes "A"] then some (one "x" "2.0.0" ["A"])
@@ -34,15 +34,15 @@ def demoFn : Task → Option Patch := fun t =>
 /-- a universe with follow-up tasks in which all hypotheses of `C16_final` hold: A is fixed by x→2.0.0 which
 introduces C; A,C together are fixed by x→3.0.0; B is fixed by y→2.0.0 -/
 def okFn : Task → Option Patch := fun t =>
-  if t = [bytes "A"] then some ⟨[⟨bytes "x", bytes "1.0.0", bytes "2.0.0", false⟩], [bytes "A"], [bytes "C"]⟩
-  else if t = [bytes "A", bytes "C"] then some ⟨[⟨bytes "x", bytes "1.0.0", bytes "3.0.0", false⟩], [bytes "A"], []⟩
-  else if t = [bytes "B"] then some ⟨[⟨bytes "y", bytes "1.0.0", bytes "2.0.0", false⟩], [bytes "B"], []⟩
+  if t = [bytes "A"] then some ⟨[⟨bytes "x", bytes "1.0.0", bytes "2.0.0", false, []⟩], [bytes "A"], [bytes "C"]⟩
+  else if t = [bytes "A", bytes "C"] then some ⟨[⟨bytes "x", bytes "1.0.0", bytes "3.0.0", false, []⟩], [bytes "A"], []⟩
+  else if t = [bytes "B"] then some ⟨[⟨bytes "y", bytes "1.0.0", bytes "2.0.0", false, []⟩], [bytes "B"], []⟩
   else none
 
-def okA : Patch := ⟨[⟨bytes "x", bytes "1.0.0", bytes "2.0.0", false⟩], [bytes "A"], [bytes "C"]⟩
-def okAC : Patch := ⟨[⟨bytes "x", bytes "1.0.0", bytes "3.0.0", false⟩], [bytes "A"], []⟩
-def okB : Patch := ⟨[⟨bytes "y", bytes "1.0.0", bytes "2.0.0", false⟩], [bytes "B"], []⟩
+def okA : Patch := ⟨[⟨bytes "x", bytes "1.0.0", bytes "2.0.0", false, []⟩], [bytes "A"], [bytes "C"]⟩
+def okAC : Patch := ⟨[⟨bytes "x", bytes "1.0.0", bytes "3.0.0", false, []⟩], [bytes "A"], []⟩
+def okB : Patch := ⟨[⟨bytes "y", bytes "1.0.0", bytes "2.0.0", false, []⟩], [bytes "B"], []⟩
 /-- a strategy that introduces a vulnerability not seen before on every attempt (an id longer than every id so far) -/
-def freshFn : Task → Option Patch := fun t => some ⟨[⟨[120], [], [t.length], false⟩], [], [List.replicate (t.length + 1) 7]⟩
+def freshFn : Task → Option Patch := fun t => some ⟨[⟨[120], [], [t.length], false, []⟩], [], [List.replicate (t.length + 1) 7]⟩
 
 end Scalibr.C16
